@@ -61,17 +61,19 @@ CHECKS['C10'] = dict(level='model_checking', design='1/C10',
 CHECKS['C13'] = dict(level='model_checking', design='1/C13',
      text='The real Thread.h/Mutex.h code (start/begin/beginf/beginfN trampolines, lambda constructor hand-over and its spin-wait, join, copy/assignment of handles, parallel_for, parallel_invoke, ThreadGroup, Semaphore, Condition) is executed symbolically on a thread model in which every pthread is a coroutine and the schedule is a sequence of recorded decisions at the visible operations (volatile and atomic accesses, pthread/sem calls, thread exit): all interleavings with at most 2 (thorough 3) preemptions are explored for small scenarios, and parallel_for is checked for symbolic i0, i1 and thread count over the stated range on the hand-over schedule; exactly-once counters, finished() after join() and visibility of effects are assertions decided on every path; context lifetime is checked by the memory model.',
      note='Bounded schedules (preemption bound), sequentially consistent memory, no detection of races between plain accesses; pthread primitives are the model (engine/threads_sym.py). Violations are confirmed by running the same harness natively with real threads.')
+CHECKS['C14'] = dict(level='model_checking', design='1/C14',
+     text='The real SocketServer (bind, start(true), startLoop with Sockets::waitInput/accept, SockClientThread handler threads, sequential mode, stop(true), destructor) and the Socket_ layer are executed symbolically on the thread model over a listening-socket model: for 0-2 (thorough 3) client connections, open or closed early, every interleaving of the accept thread, the handler threads and the controlling thread with a bounded number of preemptions at visible operations (volatile/atomic accesses - the handler counter and the reference counts of Socket handles -, pthread calls, blocking socket calls) is explored; exactly-once serve(), own-token echo, close after serve, quiescence after stop(true), no serve() after it and memory safety through destruction are decided on every path.',
+     note='Bounded schedules; plain-bool flags are not treated as visible operations (no data-race detection); sockets and pthread primitives are models. Counterexamples are replayed natively over real loopback TCP with the guarded hook (MANIFEST.hooks) holding threads at the switch point.')
 NA = {
- 'C14': 'not built yet',
  'C19': 'not built yet',
 }
 ALL = ['C%02d' % i for i in range(1, 21)]
 man = {
  'version': 1,
  'setup_cmd': 'python3-vt -m compileall -q engine >/dev/null && python3-vt engine/selftest.py',
- 'hooks': {'guard': 'ASL_VERIF', 'enable': 'none needed: checks compile /repo sources unmodified to LLVM IR; all instrumentation lives in the harness TUs under /verif/harness and the environment models under /verif/env',
+ 'hooks': {'guard': 'ASL_VERIF', 'enable': '-DASL_VERIF when compiling the native replay build of C14 (spec NATIVE_DEFINES); one hook: asl_verif_sched_point("Thread::begin:after-run") in include/asl/Thread.h, implemented in env/vp_native.cpp (holds the thread when VP_DELAY names the point). The symbolic checks compile /repo sources without the define; all other instrumentation lives in the harness TUs under /verif/harness and the environment models under /verif/env',
            'baseline_off_cmd': 'cmake -S /repo -B /repo/_build -G Ninja -DASL_TESTS=ON >/dev/null && cmake --build /repo/_build >/dev/null && ctest --test-dir /repo/_build -j8 --timeout 900',
-           'source_commits': [], 'add_only': True},
+           'source_commits': ['8f21d8b'], 'add_only': True},
  'engines': [
    {'name': 'E-REAL', 'path': 'engine/symreal.h', 'serves_properties': ['C20'], 'kind_free_text': 'term-building scalar instantiating the real matrix templates; QF_NRA queries decided by z3'},
    {'name': 'E-SYM', 'path': 'engine/llsym.py', 'serves_properties': sorted(k for k in CHECKS if k != 'C20'), 'kind_free_text': 'path-wise symbolic executor over clang-14 LLVM IR of the real asl sources, z3 back end, native ASan/UBSan replay of counterexamples and sampled path models'},
